@@ -232,6 +232,7 @@ class Contract:
         entry_points=True,
         tags=(),
         remote_slots=(),
+        legacy_ctx=False,
     ):
         self.mod = mod
         self.name = cc_upper_camel(mod)
@@ -258,6 +259,7 @@ class Contract:
         self.replies = replies
         self.entry_points = entry_points
         self.tags = list(tags)
+        self.legacy_ctx = legacy_ctx  # own handlers take the deprecated sylvia::types::*Ctx
         self.cid = "%s::%s" % (family, mod)
 
     def all_handlers(self):
@@ -743,14 +745,16 @@ def emit_contract(c, iface_path):
             )
         elif h.kind == "query":
             w(
-                "        fn %s(&self, ctx: QueryCtx%s%s) -> Result<%s, %s> %s"
-                % (h.fn, q, rust_args(h.args), h.ret, c.err_ty(), body_query(h, "G", hid))
+                "        %sfn %s(&self, ctx: %sQueryCtx%s%s) -> Result<%s, %s> %s"
+                % ("#[allow(deprecated)] " if c.legacy_ctx else "", h.fn, "sylvia::types::" if c.legacy_ctx else "", q, rust_args(h.args), h.ret, c.err_ty(), body_query(h, "G", hid))
             )
         else:
             w(
-                "        fn %s(&self, ctx: %s%s%s) -> Result<Response%s, %s> %s"
+                "        %sfn %s(&self, ctx: %s%s%s%s) -> Result<Response%s, %s> %s"
                 % (
+                    "#[allow(deprecated)] " if c.legacy_ctx else "",
                     h.fn,
+                    "sylvia::types::" if c.legacy_ctx else "",
                     CTX[h.kind],
                     q,
                     rust_args(h.args),
@@ -1629,6 +1633,19 @@ def family_f1(rng):
             tags=("dispatch", "irregular"),
         )
     )
+    # many parts, many handlers: six interfaces and twenty own exec handlers
+    cs.append(
+        Contract(
+            "pq",
+            "f1",
+            std_handlers(rng, extra=[Handler("exec", "op%s" % "abcdefghijklmnopqrst"[k], [Arg("n", "u32")]) for k in range(20)] + [Handler("query", "q%s" % "abcdefghij"[k], [Arg("s", "String")], ret="String") for k in range(10)]),
+            uses=[Use(lib["alpha"]), Use(lib["beta"]), Use(lib["delta"]), Use(lib["eps"]), Use(lib["zeta"]), Use(lib["wide"])],
+            err="own",
+            tags=T + ("regular",),
+        )
+    )
+    # the deprecated context types of sylvia::types
+    cs.append(Contract("pl", "f1", std_handlers(rng, extra=[Handler("exec", "old_style", [Arg("amount", "Uint128")]), Handler("query", "old_q", [Arg("k", "String")], ret="String")]), uses=[Use(lib["alpha"])], err="std", legacy_ctx=True, tags=T + ("regular",)))
     # a contract without the entry_points macro (multitest deployment only)
     cs.append(Contract("pn", "f1", std_handlers(rng, extra=[Handler("exec", "only_mt", [Arg("n", "u32")])]), uses=[Use(lib["eps"])], err="std", entry_points=False, tags=T + ("regular",)))
     # native 128 bit integer parameters (serde-json-wasm carries them as strings)
